@@ -22,7 +22,7 @@ CONSTANTS Conns,        \* connection names
 
 MatchTable == { <<"a*", "a">>, <<"a*", "ab">>,
                 <<"*", "a">>, <<"*", "ab">>, <<"*", "b">>, <<"*", "bc">>,
-                <<"b?", "bc">>,
+                <<"b?", "bc">>, <<"*", "b-e">>, <<"b?", "b-e">>,   \* "b-e": the drivers' alias of a channel whose second character is not ASCII
                 <<"ab", "ab">> }      \* a pattern without wildcard: it matches the channel of the same name only
 Match(p, ch) == <<p, ch>> \in MatchTable
 
